@@ -437,8 +437,8 @@ func run(e *harness.Env) {
 		"quick: all 8^k for k<=2, the 64 stride vectors (base+i*stride mod 8) for k=3, 8 rotations for ZZ2+A200 subsets; orders in/reversed]; " +
 		"(merge) every subset of <=3 addresses (incl. none) x merged ranges {A1:B2 | B1:C1 | A2:A3 | B1:C1+A2:A3} x value in the last covered cell y/n x rotating kind vectors (8 thorough, 4 quick) x in/reversed; " +
 		"(ws) a line break / tab inside a string value at every position of every subset of <=3 of 5 addresses x 5 string kinds x in/reversed; " +
-		"(sheets) two sheets: every pair of subsets of <=2 of 5 addresses (incl. empty) x rotating kinds (8 / 3) x 4 package layouts (standard, part numbers swapped against declared order, absolute targets, custom relationship ids); " +
-		"(xsheet) two sheets, each independently x merge layout {none, A1:B2, B1:C1, A2:A3, B1:C1+A2:A3} x every subset of <=2 of the addresses inside those regions (5 quick / 7 thorough, incl. the empty sheet) x rotating kinds (1 / 3) x <dimension> in both / only one sheet, plus 6^3 three-sheet workbooks: nothing of one sheet may show in another; " +
+		"(sheets) two sheets: every pair of subsets of <=2 of 5 addresses (incl. empty) x rotating kinds (8 / 2) x 4 package layouts (standard, part numbers swapped against declared order, absolute targets, custom relationship ids); " +
+		"(xsheet) two sheets, each independently x merge layout {none, A1:B2, B1:C1, A2:A3, B1:C1+A2:A3} (quick: none, A1:B2, B1:C1+A2:A3) x every subset of <=2 of the addresses inside those regions (5 quick / 7 thorough, incl. the empty sheet) x rotating kinds (1 / 3) x <dimension> in both / only one sheet, plus 6^3 three-sheet workbooks: nothing of one sheet may show in another; " +
 		"(sst) shared / rich shared strings with reversed, padded and reversed+padded string tables, one and two sheets; " +
 		"(variants) t=\"n\", formula-cached number/bool/error/text, no <dimension>, no styles part, deflated members, styled blank cells before/after/below the content. " +
 		"distinct = distinct descriptors; non-trivial = everything except a workbook whose only cell is A1 (any kind) and the single-letter columns of the codec"
@@ -710,7 +710,7 @@ func sheetsSpace(e *harness.Env, tmp string) {
 	}{{"std", wbopts{}}, {"swapped-parts", wbopts{swapParts: true}}, {"abs-targets", wbopts{abs: true}}, {"relids", wbopts{relIDs: true, swapParts: true}}}
 	for _, s1 := range subs {
 		for _, s2 := range subs {
-			for _, base := range bases(e, []int{0, 3, 6}) {
+			for _, base := range bases(e, []int{0, 5}) {
 				if base > 0 && len(s1)+len(s2) == 0 {
 					continue
 				}
@@ -747,6 +747,8 @@ func xsheetSpace(e *harness.Env, tmp string) {
 	alphabet := []string{"A1", "B1", "A2", "B2", "A3"}
 	if e.Thorough() {
 		alphabet = []string{"A1", "B1", "A2", "B2", "A3", "C1", "C3"}
+	} else {
+		layouts = [][]string{nil, {"A1:B2"}, {"B1:C1", "A2:A3"}} // quick: none, one region, two regions
 	}
 	var cfgs []cfg
 	for _, m := range layouts {
